@@ -198,6 +198,8 @@ def run(chk):
         "harness/timed_table.py (instances, timelines)",
         "runner assumption (Ops/Multi.v): the disposable an operator returns holds every subscription and timer it "
         "opened -- checked here by comparing unsubscribe/cancel instants",
+        "closed-world comparison (harness/timed_table.py: closed_world): hand-made hot sources whose notifications "
+        "are queued before the subscription, under reactivex.testing.TestScheduler and HistoricalScheduler",
         "closed-world theorems are about Ops/TimedSim.v: every requested timer fires exactly at request time + "
         "clamped delay, source events first at equal instants (the proxy scheduler's policy)"],
         assumptions=["timelines are in integer milliseconds; datetime/timedelta arithmetic is exact on them",
